@@ -236,6 +236,16 @@ class FuncCtx:
                     "*" in (strip(kids(b0)[0], casts=True).get("type") or "") and "*" not in (strip(kids(b0)[1], casts=True).get("type") or "*"):
                 # (p + i)->f  ==  p[i].f
                 return "%s[%s].%s" % (self.canon(kids(b0)[0], depth, subst), self.canon(kids(b0)[1], depth, subst), n["name"])
+            if n.get("isArrow") and b0["kind"] == "ConditionalOperator":
+                # (c ? p : NULL)->f is only defined when it is p->f
+                from .astutil import is_null_expr as _isnull
+                arms = kids(b0)[1:]
+                live = [a_ for a_ in arms if not _isnull(a_)]
+                if len(arms) == 2 and len(live) == 1:
+                    pb = self.canon(live[0], depth, subst)
+                    if pb.startswith("&") and not pb.startswith("&("):
+                        return pb[1:] + "." + n["name"]
+                    return pb + "->" + n["name"]
             base = self.canon(ch[0], depth, subst)
             if base.endswith("-><anon>") or base.endswith(".<anon>"):
                 return base[:-6] + n["name"]
